@@ -54,6 +54,11 @@ type Options struct {
 	// overriding some of its methods) in front of both routers, the way an application customises e.g. the
 	// JWT-profile verifier
 	WrapProvider func(*op.Provider) op.OpenIDProvider
+	// ConfigPtr, when non-nil, is the application's own *op.Config variable: it is handed to op.NewProvider as is
+	// (Config is ignored), so the caller may share it between several providers and rewrite it afterwards, the way an
+	// application that builds one provider per tenant from one config variable does. nil = today's behaviour (every
+	// world gets a private copy of Config).
+	ConfigPtr *op.Config
 }
 
 type World struct {
@@ -115,8 +120,12 @@ func NewWorld(opt Options) (*World, error) {
 		issuerFn = op.StaticIssuer(opt.Issuer)
 	}
 	cfg := opt.Config
+	cfgPtr := &cfg
+	if opt.ConfigPtr != nil {
+		cfgPtr = opt.ConfigPtr
+	}
 	opts := append([]op.Option{op.WithLogger(Discard)}, opt.ProviderOpts...)
-	p, err := op.NewProvider(&cfg, w.Storage, issuerFn, opts...)
+	p, err := op.NewProvider(cfgPtr, w.Storage, issuerFn, opts...)
 	if err != nil {
 		return nil, err
 	}
